@@ -30,6 +30,14 @@ F_ROWS = None   # (closed: repaired in /repo ef88415)
 F_DEP = "product_dependent_bbox_sampled"
 
 
+MARK = 12345.0        # what the harness writes into returned tensors between the calls of a history
+
+
+def marked(bx):
+    return (" (12345 is the value the harness wrote into the tensor an EARLIER call returned: the object handed out its own stored state, "
+            "or a composite wrote into an operand's stored box)") if any(abs(x) == MARK for x in bx) else ""
+
+
 def tol_of(vals):
     return TOL * (1 + max([abs(float(x)) for x in vals] + [0.0]))
 
@@ -335,7 +343,7 @@ def own_samples(case, res, n=24):
     node = geomgen.from_json(case["dom"])
     kk = max(1, case["k"])
     try:
-        s = common.call_with_timeout(0.4, dom.sample_random_uniform, n=n, params=pr)
+        s = common.call_with_timeout(0.25, dom.sample_random_uniform, n=n, params=pr)
     except BaseException as e:  # noqa  (sampling defects belong to C01 / C02)
         if isinstance(e, KeyboardInterrupt):
             raise
@@ -412,7 +420,7 @@ def run(ctx, rep, cases=None):
     tp = common.use_repo()
     import torch
     if cases is None:
-        cases = [make_case(ctx, i) for i in range(ctx.scale(360, 4000))]
+        cases = [make_case(ctx, i) for i in range(ctx.scale(320, 4000))]
         cases += [make_depprod_case(ctx, 100000 + i) for i in range(ctx.scale(6, 40))]
         extras = True
     else:
@@ -539,6 +547,8 @@ def run(ctx, rep, cases=None):
             consumers(ctx, rep, cs, node, res, boxes[0], e, replies)
     if extras:
         rot3_cases(ctx, rep, [make_rot3_case(ctx, 200000 + i) for i in range(ctx.scale(40, 400))])
+        history_cases(ctx, rep, [make_history(ctx, 300000 + i) for i in range(ctx.scale(50, 500))])
+        opaque_histories(ctx, rep)
         opaque_cases(ctx, rep)
 
 
@@ -865,6 +875,213 @@ def rot3_cases(ctx, rep, cases):
                      f"(exact membership: inside, parameter row {i}) has coordinate {float(img[ax]):.6g} — {out:.3g} outside", cs)
 
 
+# ---------------------------------------------------------------------------------------------
+# call histories on live objects: the same domain object (and its operand objects) asked several times with
+# different row sets, in different orders; the returned tensors are overwritten by the harness between the
+# calls (a caller may modify what it got) — every answer is judged like a single call
+
+def sub_paths(node, path=()):
+    """attribute paths from the torchphysics object of `node` to the objects of its sub-expressions"""
+    out = [(path, node)]
+    k = node.kind
+    if k in ("union", "cut", "inter", "prod"):
+        out += sub_paths(node.kids[0], path + ("domain_a",)) + sub_paths(node.kids[1], path + ("domain_b",))
+    elif k in ("translate", "rotate"):
+        out += sub_paths(node.kids[0], path + ("domain",))
+    return out          # boundaries: the root object only (`.boundary` of a motion is a motion of the boundary)
+
+
+def make_history(ctx, idx):
+    rng = ctx.rng
+    while True:
+        cs = make_case(ctx, idx)
+        node = geomgen.from_json(cs["dom"])
+        if node.depth() >= 2 or rng.random() < 0.3:
+            break
+    pv = cs["pvars"]
+
+    def rowset():
+        k = rng.choice([1, 2, 3]) if pv else 0
+        return dict(k=k, rows=[{p: [str(Fr(rng.randint(0, 16), 16))] for p in pv} for _ in range(max(k, 1))])
+    rowsets = [dict(k=cs["k"], rows=cs["rows"]) if (cs["k"] or not pv) else rowset(), rowset(), rowset()]
+    paths = [list(p_) for p_, n_ in sub_paths(node) if all(x in pv for x in n_.free_vars())]
+    subs = [p_ for p_ in paths if p_] or [[]]
+    steps = [dict(path=[], rows=0), dict(path=rng.choice(subs), rows=1), dict(path=[], rows=1), dict(path=rng.choice(subs), rows=0),
+             dict(path=[], rows=2), dict(path=[], rows=0)]
+    return dict(id=idx, kind="history", mode=cs["mode"], dom=cs["dom"], pvars=pv, rowsets=rowsets, steps=steps)
+
+
+def node_at(node, path):
+    for a in path:
+        node = node.kids[1] if a == "domain_b" else node.kids[0]
+    return node
+
+
+def history_cases(ctx, rep, hists):
+    tp = common.use_repo()
+    import torch
+    lines, plan = [], []
+    for h in hists:
+        root = geomgen.from_json(h["dom"])
+        st = []
+        for step in h["steps"]:
+            node = node_at(root, step["path"])
+            rs = h["rowsets"][step["rows"]]
+            envs = [{p: [Fr(a) for a in r[p]] for p in h["pvars"]} for r in rs["rows"]]
+            e = dict(node=node, rs=rs, envs=envs, line=len(lines))
+            lines.append(f"bbox {node.tokens()} {common.lst(envs, env_tokens)}")
+            cands = []
+            mnode = member_node(node)
+            for i, env in enumerate(envs):
+                try:
+                    cands += [(i, pt) for pt in candidate_points(node, env, ctx.rng, 6)]
+                except KeyError:
+                    pass
+            e["cand_line"] = len(lines)
+            for i, pt in cands:
+                lines.append(f"contains {ATOL} {RTOL} {BATOL} {mnode.tokens()} {env_tokens(pt)} {env_tokens(envs[i])}")
+            e["cands"] = cands
+            st.append(e)
+        plan.append((h, root, st))
+    replies = common.run_driver("C18", lines)
+    for h, root, st in plan:
+        rep.count("mode:history")
+        rep.count("history-of:" + h["mode"])
+        try:
+            obj = root.to_tp(tp)
+        except Exception as ex:  # noqa
+            rep.count("constructor-raised")
+            continue
+        trace = []
+        rep.case(dict(history=h["dom"], rowsets=h["rowsets"], steps=h["steps"]), True,
+                 sample=dict(expression=root.tokens(), rowsets=h["rowsets"], steps=h["steps"]), kind="history")
+        torch.manual_seed(h["id"])
+        for j, (step, e) in enumerate(zip(h["steps"], st)):
+            node, rs = e["node"], e["rs"]
+            target = obj
+            for a in step["path"]:
+                target = getattr(target, a)
+            where = f"call {j + 1} of the history {[('.'.join(s_['path']) or 'root', 'rows#%d' % s_['rows']) for s_ in h['steps'][:j + 1]]}"
+            pr = param_points(tp, torch, h["pvars"], rs["rows"]) if rs["k"] else tp.spaces.Points.empty()
+            try:
+                box = target.bounding_box(pr) if rs["k"] else target.bounding_box()
+                bt = box if isinstance(box, torch.Tensor) else torch.as_tensor(box, dtype=torch.float32)
+                res = dict(shape=list(bt.shape), values=[float(x) for x in bt.reshape(-1).tolist()])
+            except Exception as ex:  # noqa
+                rep.fail(f"bounding_box raised {type(ex).__name__}: {str(ex)[:160]} at {where}", h)
+                break
+            if isinstance(box, torch.Tensor):
+                with torch.no_grad():
+                    box.fill_(MARK)          # the caller owns the returned tensor
+            pseudo = dict(id=h["id"], mode="history", dom=node.describe(), pvars=h["pvars"], rows=rs["rows"], k=rs["k"])
+            d2 = 2 * sum(DIM[x] for x in node.vars())
+            boxes = row_boxes(pseudo, res)
+            if boxes is None or (rs["k"] <= 1 and res["shape"] != [d2]) or not all(x == x and abs(x) != float("inf") for x in res["values"]):
+                rep.fail(f"bounding_box returned shape {res['shape']} / values {res['values'][:8]} at {where}", h)
+                break
+            model = replies[e["line"]]
+            ok = True
+            if model.startswith("flat ") or model.startswith("rows "):
+                kind, rest = model.split(" ", 1)
+                mv = [Fr(x) for r in rest.split(" ; ") for x in r.split()]
+                tl = tol_of(mv)
+                want = [d2] if kind == "flat" else [len(rest.split(" ; ")), d2]
+                if res["shape"] != want or any(abs(a - float(b)) > tl for a, b in zip(res["values"], mv)):
+                    ok = False
+                    rep.disagree(f"drivers/C18.lean bbox at {where}: the answer differs from the model (and from what a fresh object answers)",
+                                 h, res, model)
+            # enclosure oracle after every call
+            worst = None
+            for jj, (i, pt) in enumerate(e["cands"]):
+                if replies[e["cand_line"] + jj].split()[0] != "1":
+                    continue
+                p_ = flat_point(member_node(node), pt)
+                bx = boxes[i]
+                tl = tol_of(bx + [float(x) for x in p_])
+                for ax, x in enumerate(p_):
+                    out = max(bx[2 * ax] - float(x), float(x) - bx[2 * ax + 1])
+                    if out > tl and (worst is None or out > worst[0]):
+                        worst = (out, ax, i, p_, bx)
+            rep.count("history-calls-judged")
+            if worst is not None:
+                out, ax, i, p_, bx = worst
+                rep.fail(f"a point of the domain lies outside the bounding box returned at {where}: axis {ax} of the box is "
+                         f"[{bx[2*ax]:.6g}, {bx[2*ax+1]:.6g}] but the point {[float(x) for x in p_]} of `{node.tokens()[:60]}…` (exact membership: inside, "
+                         f"parameter row {i} of row set {step['rows']}) has coordinate {float(p_[ax]):.6g} — {out:.3g} outside" + marked(bx), h)
+                break
+            if not ok:
+                break
+
+
+def opaque_histories(ctx, rep):
+    """the same for operands outside the Lean expression type (ShapelyPolygon, Point) inside composites: exact
+    vertex / extreme-point oracles after every call, returned tensors overwritten between the calls"""
+    tp = common.use_repo()
+    import torch
+    rng = ctx.rng
+    try:
+        from torchphysics.problem.domains.domain2D.shapely_polygon import ShapelyPolygon
+    except ImportError:
+        rep.count("opaque:shapely-missing")
+        return
+    X2 = tp.spaces.R2("x")
+    for rnd in range(ctx.scale(4, 20)):
+        vs = [[dy(rng, 0, 3), dy(rng, 0, 3)], [dy(rng, 4, 8), dy(rng, -2, 1)], [dy(rng, 5, 9), dy(rng, 4, 8)], [dy(rng, -2, 2), dy(rng, 5, 9)]]
+        cc, r = [dy(rng, 3, 5), dy(rng, 3, 5)], dy(rng, 3.5, 6)
+        pp = [dy(rng, -3, 3), dy(rng, -3, 3)]
+        desc = dict(kind="opaque-history", polygon=[[str(a) for a in p_] for p_ in vs], circle=[[str(a) for a in cc], str(r)], point=[str(a) for a in pp])
+        try:
+            P = ShapelyPolygon(X2, [[float(a) for a in p_] for p_ in vs])
+            Cc = tp.domains.Circle(X2, [float(a) for a in cc], float(r))
+            Pt = tp.domains.Point(X2, [float(a) for a in pp])
+            objs = {"P": P, "C": Cc, "Pt": Pt, "P&C": P & Cc, "C&P": Cc & P, "P+C": P + Cc, "P-C": P - Cc, "Pt+P": Pt + P, "P+Pt": P + Pt,
+                    "P*I": P * tp.domains.Interval(tp.spaces.R1("y"), 0, 1), "T(P)": tp.domains.Translate(P, [1.0, -2.0])}
+        except Exception as ex:  # noqa
+            rep.count("opaque:history-constructor-raised:" + type(ex).__name__)
+            continue
+        in_c = lambda p_: (p_[0] - cc[0]) ** 2 + (p_[1] - cc[1]) ** 2 <= r * r
+        cpts = [[cc[0] + r, cc[1]], [cc[0] - r, cc[1]], [cc[0], cc[1] + r], [cc[0], cc[1] - r]]
+        members = {"P": vs, "C": cpts, "Pt": [pp], "P&C": [p_ for p_ in vs if in_c(p_)], "C&P": [p_ for p_ in vs if in_c(p_)],
+                   "P+C": vs + cpts, "P-C": [p_ for p_ in vs if not in_c(p_)], "Pt+P": vs + [pp], "P+Pt": vs + [pp],
+                   "P*I": [p_ + [Fr(0)] for p_ in vs] + [p_ + [Fr(1)] for p_ in vs], "T(P)": [[p_[0] + 1, p_[1] - 2] for p_ in vs]}
+        ext = lambda pts_: [f(p_[i] for p_ in pts_) for i in range(len(pts_[0])) for f in (min, max)]
+        tight = {"P": ext(vs), "C": ext(cpts), "P+C": ext(vs + cpts), "P-C": ext(vs), "P*I": ext(members["P*I"]), "T(P)": ext(members["T(P)"])}
+        order = ["P", "P&C", "P", "P+C", "C", "C&P", "P", "Pt+P", "Pt", "P*I", "P-C", "T(P)", "P", "C"]
+        tail = list(objs)
+        rng.shuffle(tail)
+        order += tail
+        rep.count("mode:opaque-history")
+        rep.case(dict(desc, order=order), True, sample=dict(desc, order=order), kind="opaque-history")
+        for j, name in enumerate(order):
+            where = f"call {j + 1} of the history {order[:j + 1]}"
+            try:
+                box = objs[name].bounding_box()
+                bt = box if isinstance(box, torch.Tensor) else torch.as_tensor(box, dtype=torch.float32)
+                bx = [float(x) for x in bt.reshape(-1).tolist()]
+            except Exception as ex:  # noqa
+                rep.fail(f"bounding_box of {name} raised {type(ex).__name__}: {str(ex)[:160]} at {where}", dict(desc, order=order))
+                break
+            if isinstance(box, torch.Tensor):
+                with torch.no_grad():
+                    box.fill_(MARK)
+            rep.count("history-calls-judged")
+            pts = members[name]
+            d = len(bx) // 2
+            tl = tol_of(bx)
+            bad = None
+            if pts and len(bx) != 2 * len(pts[0]):
+                bad = f"has {len(bx)} entries"
+            for p_ in pts:
+                for ax in range(d):
+                    if bad is None and not (bx[2 * ax] - tl <= float(p_[ax]) <= bx[2 * ax + 1] + tl):
+                        bad = f"does not contain the point {[float(a) for a in p_]} of the set"
+            if bad is None and name in tight and any(abs(a - float(b)) > tl for a, b in zip(bx, tight[name])):
+                bad = f"is not the exact extent {[float(a) for a in tight[name]]}"
+            if bad:
+                rep.fail(f"the bounding box {bx} of {name} (P = polygon, C = disc, Pt = point) {bad} at {where}" + marked(bx), dict(desc, order=order))
+                break
+
+
 def replay(ctx, obj):
     rep = common.Report(ctx)
     lean = common.lean_check("C18")
@@ -873,6 +1090,10 @@ def replay(ctx, obj):
         opaque_cases(ctx, rep)
     elif inp.get("kind") == "rot3":
         rot3_cases(ctx, rep, [inp])
+    elif inp.get("kind") == "history":
+        history_cases(ctx, rep, [inp])
+    elif inp.get("kind") == "opaque-history":
+        opaque_histories(ctx, rep)
     else:
         run(ctx, rep, [slim(inp)])
     return common.finish(ctx, rep, lean)
